@@ -29,5 +29,10 @@ def jobs(tier, seed):
                  timeout=1500 if not T else 2400, mem_gb=8, n_inputs=3, clause="13.c", bound="any leap table on a 3-year window"))
     return J
 
+def fallback_candidates(j):
+    if j.body.endswith("c13b_days"):
+        return [[y, m] for y in (1582, 2024, 1900, 1) for m in range(1, 13)]
+    return []
+
 def describe(j, vals):
     return {"inputs_as_i64": [v if v < (1 << 63) else v - (1 << 64) for v in vals]}
